@@ -261,11 +261,35 @@ func trackFile(f *os.File, err error) (*os.File, error) {
 	return f, err
 }
 
+// FailOpen lets a harness fail the opening / creation of a file by the code under test with an I/O error
+// (out of descriptors, disk full); nil = never. Reset by New.
+var FailOpen func(name string) error
+
+func failOpen(name string) error {
+	if FailOpen == nil {
+		return nil
+	}
+	return FailOpen(name)
+}
+
 func OpenFile(name string, flag int, perm os.FileMode) (*os.File, error) {
+	if err := failOpen(name); err != nil {
+		return nil, err
+	}
 	return trackFile(os.OpenFile(name, flag, perm))
 }
-func Open(name string) (*os.File, error)   { return trackFile(os.Open(name)) }
-func Create(name string) (*os.File, error) { return trackFile(os.Create(name)) }
+func Open(name string) (*os.File, error) {
+	if err := failOpen(name); err != nil {
+		return nil, err
+	}
+	return trackFile(os.Open(name))
+}
+func Create(name string) (*os.File, error) {
+	if err := failOpen(name); err != nil {
+		return nil, err
+	}
+	return trackFile(os.Create(name))
+}
 
 func Mmap(fd int, offset int64, length, prot, flags int) ([]byte, error) {
 	b, err := syscall.Mmap(fd, offset, length, prot, flags)
